@@ -47,6 +47,12 @@ def whole_query_cases(backend):
         ("raw-object-column", f"ds.Select(lambda e: {c}.First())"),
         ("raw-object-in-tuple", f"ds.SelectMany(lambda e: {c}).Select(lambda j: (j.pt(), j))"),
         ("raw-event-column", "ds.Select(lambda e: e)"),
+        ("object-minus-object", f"ds.SelectMany(lambda e: {c}).Select(lambda j: j - j)"),
+        ("object-plus-object-where", f"ds.Select(lambda e: {c}.Where(lambda j: (j + j) > 0).Count())"),
+        ("object-times-number", f"ds.SelectMany(lambda e: {c}).Select(lambda j: j * 2)"),
+        ("collection-plus-collection", f"ds.Select(lambda e: {c} + {c})"),
+        ("collection-minus-collection-count", f"ds.Select(lambda e: ({c} - {c}).Count())"),
+        ("event-plus-event", "ds.Select(lambda e: e + e)"),
         ("raw-event-where", "ds.Where(lambda e: True)"),
         ("raw-sequence-of-objects-column", f"ds.Select(lambda e: {c})"),
         ("dict-starstar", f"ds.Select(lambda e: {{'a': {c}.Count(), **{{'b': 1}}}})"),
